@@ -1347,6 +1347,102 @@ class Facts:
     def reads_fact(self, x):
         return any(y.get('k') == 'member' and (y.get('record'), y['field']) in self.members for y in walk(x))
 
+    # hooks for facts that are not read through a plain member (see LoopFacts)
+    def expand(self, x, env):
+        """an expression equivalent to x under env (identity here)"""
+        return x
+
+    def special(self, x, env):
+        """(key, polarity) when the (stripped) expression x is a truth test of a fact that is not a member read"""
+        return None
+
+    def pure_call(self, x):
+        """is the call expression x a side-effect free read of a fact?"""
+        return False
+
+
+class LoopFacts(Facts):
+    """Facts plus *list emptiness*: `iv_list_empty(&X->field)` for the tabled (record, field) is the truth test
+    "key is zero" (key non-zero = something is linked into the list), and a call expression of a helper that the inliner
+    expanded stands for the helper's result variable on the current path (env[('inl', call location)] = instance
+    number, recorded at the `enter` event)."""
+
+    def __init__(self, members, lists):
+        Facts.__init__(self, members)
+        self.lists = dict(lists)          # {(record, field) of the list head: key}
+
+    def head_key(self, a, env=None):
+        """key of the list whose head the pointer expression a is the address of: `&X->field`, or a pointer local that
+        was assigned that (env[('lst', name)], maintained by the client's transfer function)"""
+        a = strip(a)
+        if isinstance(a, dict) and a.get('k') == 'addr':
+            return self.lists.get(last_member(a['e']))
+        if env is not None and isinstance(a, dict) and a.get('k') == 'var':
+            return env.get(('lst', a['name']))
+        return None
+
+    def _list_key(self, x, env=None):
+        if isinstance(x, dict) and x.get('k') == 'call' and x.get('callee') == 'iv_list_empty' and len(x.get('args', [])) == 1:
+            return self.head_key(x['args'][0], env)
+        return None
+
+    def expand(self, x, env):
+        y = strip(x)
+        if env is not None and isinstance(y, dict) and y.get('k') == 'call' and 'callee' in y and y.get('loc'):
+            n = env.get(('inl', y['loc']))
+            if n is not None:
+                return {'k': 'load', 'e': {'k': 'var', 'name': '$ret%d' % n, 'vk': 'local'}}
+        if isinstance(y, dict) and y.get('k') == 'call' and 'callee' in y and self._list_key(y, env) is None:
+            r = self._pure_result(y)
+            if r is not None:
+                return r
+        return x
+
+    def _pure_result(self, call):
+        """The expression a call of a repo function that was *not* inlined (a predicate with external linkage in
+        another file) evaluates to, when the function is a single `return <side-effect free expression over list
+        emptiness tests and its parameters>`: that expression with the arguments substituted."""
+        prog = getattr(self, 'prog', None)
+        t = prog.funcs.get(call['callee']) if prog is not None else None
+        if t is None or not t.blocks or len(t.params) != len(call.get('args', [])):
+            return None
+        cache = prog.__dict__.setdefault('_h07_pure', {})
+        if t.q not in cache:
+            body = t.pristine()
+            rets = [e for e in body.events() if e['ev'] == 'ret']
+            ok = len(rets) == 1 and 'value' in rets[0] and self.reads_fact(rets[0]['value'])
+            for e in body.events():
+                if e['ev'] in ('store', 'decl') or (e['ev'] == 'call' and self._list_key(dict(e, k='call')) is None):
+                    ok = False
+            if ok:
+                for y in walk(rets[0]['value']):
+                    if (y.get('k') == 'call' and self._list_key(y) is None) or \
+                            y.get('k') in ('assign', 'incdec', 'stmtexpr', 'other', 'deep', 'va_arg', 'init', 'compound'):
+                        ok = False
+            cache[t.q] = rets[0]['value'] if ok else None
+        v = cache[t.q]
+        if v is None:
+            return None
+        byname = {p_['name']: a for p_, a in zip(t.params, call['args'])}
+
+        def f(nd):
+            if nd.get('k') == 'load' and isinstance(nd.get('e'), dict) and nd['e'].get('k') == 'var' and nd['e'].get('vk') == 'param' \
+                    and nd['e']['name'] in byname:
+                return byname[nd['e']['name']]
+            return None
+        from ..core import subst
+        return subst(v, f)
+
+    def special(self, x, env):
+        key = self._list_key(x, env)
+        return (key, False) if key is not None else None
+
+    def pure_call(self, x):
+        return self._list_key(x) is not None
+
+    def reads_fact(self, x):
+        return Facts.reads_fact(self, x) or any(self._list_key(y) is not None for y in walk(x))
+
 
 _BOOLISH = ('==', '!=', '<', '>', '<=', '>=', '&&', '||')
 
@@ -1354,6 +1450,8 @@ _BOOLISH = ('==', '!=', '<', '>', '<=', '>=', '&&', '||')
 def alias_value(facts, x):
     """json of x when a local assigned x can stand for it: a side-effect free expression that reads a fact."""
     for y in walk(x):
+        if y.get('k') == 'call' and facts.pure_call(y):
+            continue
         if y.get('k') in ('call', 'assign', 'incdec', 'stmtexpr', 'other', 'deep', 'va_arg', 'init', 'compound'):
             return None
     if not facts.reads_fact(x):
@@ -1396,6 +1494,9 @@ def _leaf(facts, x, env=None):
         return ('const', bool(x['v']))
     if k == 'null':
         return ('const', False)
+    sp = facts.special(x, env)
+    if sp is not None:
+        return sp
     key = facts.key(x)
     if key is not None:
         return (key, True)
@@ -1407,6 +1508,18 @@ def _leaf(facts, x, env=None):
         c = int_of(r)
         if c is None and isinstance(strip(r), dict) and strip(r).get('k') == 'null':
             c = 0
+        if key is None and c is None and int_of(l) is not None:
+            l, r, op, c = r, l, SWAP[op], int_of(l)
+        sl = strip(facts.expand(l, env))
+        sp = facts.special(sl, env) if isinstance(sl, dict) and c is not None else None
+        if sp is not None:
+            # a 0/1-valued truth test compared with a constant (`iv_list_empty(&X) == 0`)
+            truth_ = {v for v in (0, 1) if _CMP[op](v, c)}
+            if truth_ == {1}:
+                return sp
+            if truth_ == {0}:
+                return (sp[0], not sp[1])
+            return ('const', bool(truth_))
         if key is not None and c is not None:
             dom = _domain_of(facts, env, key)
             truth_ = {v for v in dom if _CMP[op](v, c)}
@@ -1432,7 +1545,7 @@ def _flip(v):
 
 def truth(facts, env, x):
     """'z' / 'nz' / '?' : value of x as a truth value under env."""
-    x = strip(x)
+    x = strip(facts.expand(x, env))
     if not isinstance(x, dict):
         return '?'
     k = x.get('k')
@@ -1473,7 +1586,7 @@ def truth(facts, env, x):
 def value(facts, env, x):
     """The integer x evaluates to under env when that is decided: a constant, a local whose stored value is known
     (env[('val', name)]), `c ? a : b` with c decided, !, comparisons and +/- of decided values.  Else None."""
-    x = strip(x)
+    x = strip(facts.expand(x, env))
     if not isinstance(x, dict):
         return None
     k = x.get('k')
@@ -1545,7 +1658,7 @@ def assume(facts, env, x, pol):
     """Environments (dicts) refining env in which x has truth value pol; [] when impossible.
     Handles arbitrary nesting of ! && || | ?: , comparisons of fact keys with constants, and locals that
     stand for an expression (aliases)."""
-    x = strip(x)
+    x = strip(facts.expand(x, env))
     if not isinstance(x, dict):
         return [env]
     k = x.get('k')
